@@ -274,7 +274,7 @@ def check_trates(ctx, cc):
     from vlib.ratelaw import tame_dt
     # a time step that changes no entry by more than ~1 % per step (a coarser one makes fixed-step tau-leap
     # populations oscillate and explode, which is a user error rather than a valid script)
-    dt = tame_dt(model, flags, frac=0.01)
+    dt = cc["dt"] if cc.get("dt") else tame_dt(model, flags, frac=0.01)
     traj, done, complete = sut_call("tau-leap run", run_engine, c, "tauleap", cc["steps"], dt)
     t, states = to_int_states(traj, N)
     K = len(states) - 1
@@ -328,6 +328,67 @@ def check_trates(ctx, cc):
     for k, x in enumerate(states):
         if any(v != int(v) for v in x):
             raise Violation("tau-leap state %d holds a non-integer molecule number" % k, key="tauleap:integer")
+
+
+# ---- zero-order production into empty cells (birth-death, with diffusion) ---------------------------------------
+
+@st.composite
+def birth_case(draw):
+    """Species appear from nothing (` -> A`, per-environment constant possibly zero) in cells that start EMPTY, decay
+    (`A -> `) and diffuse. Linear, hence bounded (steady state lambda/delta molecules per cell); the step is chosen here:
+    lambda = k0 V dt births per step in the reference cell, delta = k1 dt <= 0.01."""
+    base = draw(gen.system_spec(variety="default", max_species=2, max_reactions=0, max_cells=6, max_axis=3, chemostats="none",
+                                state="explicit", count_exp=(0, 1), rate_exp=(-1, 0), simple_graph=True))
+    sp = base["space"]
+    if sp["type"] == "grid":
+        dims = {"x": sp["w"], "y": sp["h"], "z": sp["d"]}
+        sp["bc"] = {a: v for a, v in sp["bc"].items() if not (v == "periodical" and dims[a] == 1)}
+    v0 = gen.pf(sp["cell_vol"]["si"]) if sp["type"] == "grid" else gen.pf(sp["nodes"][0]["vol"]["si"])
+    model0 = Model(dict(base, reactions=[]))
+    kmax = max([k for row in model0.kslot for k in row] + [0.0])
+    dt = 1e-3
+    while kmax * dt > 0.02:
+        dt /= 10.0
+    dtf = F(dt).limit_denominator(10 ** 12)
+    labels = [s_["label"] for s_ in base["species"]]
+    envs = base["env"]
+
+    def q(v):
+        return {"si": gen.fs(v), "form": "bare", "sys": dict(gen.DEFAULT), "style": 0}
+    reactions = []
+    for lb in labels:
+        lam = F(draw(st.sampled_from([1, 2, 5, 10, 20])), 10)
+        delta = F(draw(st.sampled_from([1, 2, 5, 10])), 1000)
+        k0 = lam / (v0 * dtf)
+        if len(envs) >= 2 and draw(st.booleans()):
+            kf = {envs[0]: q(k0), "default": q(0 if draw(st.booleans()) else k0 / 2)}
+        else:
+            kf = q(k0)
+        units = {"mode": "omit", "sys": dict(base["net_units"]["sys"])}
+        reactions.append({"sub": {}, "prod": {lb: 1}, "units": dict(units), "kf": kf, "kr": q(0), "label": None, "eq_form": "str"})
+        reactions.append({"sub": {lb: 1}, "prod": {}, "units": dict(units), "kf": q(delta / dtf), "kr": q(0), "label": None, "eq_form": "str"})
+    n_entries = len(labels) * gen.space_size(sp)
+    start = draw(st.sampled_from(["empty", "empty", "some-empty"]))
+    if start == "empty":
+        vals = ["0/1"] * n_entries
+    else:
+        vals = [gen.fs(round(F(v))) if draw(st.booleans()) else "0/1" for v in base["state"]["values"]]
+    spec = dict(base, reactions=reactions, state={"values": vals, "units": "molecule"})
+    return {"case": {"sys": spec, "seed": draw(st.integers(0, 2 ** 32 - 1)), "route": draw(st.sampled_from(["ctor", "dict"])),
+                     "mode": draw(st.sampled_from(["auto", "none"])),
+                     "out": dict(si.DEFAULT_SYS) if draw(st.booleans()) else draw(gen.us_mild)},
+            "engine": draw(st.sampled_from(["tauleap", "tauleap", "gillespie"])), "dt": dt,
+            "steps": draw(st.sampled_from([500, 1000]))}
+
+
+def strat_birth(ctx):
+    return birth_case()
+
+
+def check_birth(ctx, cc):
+    if cc["engine"] == "tauleap":
+        return check_trates(ctx, cc)
+    return check_grates(ctx, dict(cc, steps=cc["steps"] * 6))
 
 
 # ---- combinatorial factors at very small molecule numbers ------------------------------------------------
@@ -418,5 +479,6 @@ FACETS = [
     Facet("gillespie_rates", check_grates, strategy=strat_grates, examples=(320, 6400), shards=(16, 16), setup=sim.setup_plain, native=True, shrink=False),
     Facet("combinatorial", check_comb, strategy=strat_comb, examples=(96, 2400), shards=(16, 16), setup=sim.setup_plain, native=True, shrink=False),
     Facet("tauleap_chemostat_diffusion", check_trates, strategy=strat_tchem, examples=(320, 4800), shards=(8, 16), setup=sim.setup_plain, native=True, shrink=False),
+    Facet("birth_death", check_birth, strategy=strat_birth, examples=(320, 4800), shards=(8, 16), setup=sim.setup_plain, native=True, shrink=False),
     Facet("tauleap_rates", check_trates, strategy=strat_trates, examples=(640, 9600), shards=(16, 16), setup=sim.setup_plain, native=True, shrink=False),
 ]
